@@ -276,7 +276,13 @@ class Interp:
                 return False
             res = True
             for x, y in zip(a.items, b.items):
-                r = self.eq3(x, y)
+                if x is y:
+                    continue            # list equality short-cuts on identity
+                if isinstance(x, Inst) and x.cls is not None and self.prog.find_method(x.cls, '__eq__')[1] is not None:
+                    rr = self.cmp(ast.Eq(), x, y, None)     # element-wise __eq__ of user classes
+                    r = bool(rr.v) if isinstance(rr, K) else None
+                else:
+                    r = self.eq3(x, y)
                 if r is False:
                     return False
                 if r is None:
@@ -539,6 +545,8 @@ class Interp:
                 return Cond(('isnone', repr(self.vkey(other))), t is ast.Is, f'{vrepr(other)[:40]} is None')
             if self.vkey(a) == self.vkey(b):
                 return K(t is ast.Is)
+            if isinstance(a, (Inst, ListV, DictV, SetV, BA)) and isinstance(b, (Inst, ListV, DictV, SetV, BA)):
+                return K((a is b) == (t is ast.Is))        # identity of heap objects is decided by the model's own identity
             return Cond(('is', repr(self.vkey(a)), repr(self.vkey(b))), t is ast.Is, 'is')
         if isinstance(a, K) and isinstance(b, K):
             try:
